@@ -5,4 +5,13 @@ import "fqverif/fw"
 // rules shared across properties, attached without touching the property's own files
 func init() {
 	RegisterExtra("C14", func(r *fw.Run, p *fw.Program) { jqImmutAs(r, p, "C14.immut") })
+	// one evaluation must not change a value that later evaluations share (decode trees, jq arrays/objects)
+	RegisterExtra("C18", func(r *fw.Run, p *fw.Program) {
+		jqImmutAs(r, p, "C18.immut")
+		sc := r.Scratch()
+		if f := Get("C08"); f != nil {
+			f(sc, p)
+			r.Import(sc, "C08.pure", "C18.pure", "no JQValue method of fq's value wrappers writes through memory it did not allocate (math/big receivers are fresh): reading a decode value in one evaluation never changes what later evaluations see (C08.pure obligations)", 100, nil)
+		}
+	})
 }
